@@ -38,6 +38,7 @@ fn dispatch(op: &str, args: &[Sexp]) -> String {
         "serde.gds" => crate::props::c18::op_gds(args),
         "serde.gdsbytes" => crate::props::c18::op_gdsbytes(args),
         "serde.lef" => crate::props::c18::op_lef(args),
+        "serde.leflib" => crate::props::c18::op_leflib(args),
         "serde.lefspecial" => crate::props::c18::op_lefspecial(args),
         "lef.lex" => crate::props::lef::op_lex(args),
         "lef.states" => crate::props::lef::op_states(args),
@@ -56,6 +57,7 @@ fn dispatch(op: &str, args: &[Sexp]) -> String {
         "tf.apply" => crate::props::c12::op_apply(args),
         "tf.general" => crate::props::c12::op_general(args),
         "tf.gchain" => crate::props::c12::op_gchain(args),
+        "raw.gflatten" => crate::props::c12::op_gflatten(args),
         "raw.flatten" => crate::props::c12::op_flatten(args),
         "geom.contains" => crate::props::c13::op_contains(args),
         "dep.generic" => crate::props::c17::op_generic(args),
